@@ -243,6 +243,10 @@ CORPUS = [
     {"name": "corpus-shared-entry-split", "limit": 128, "seed": 520685, "nedits": 2,
      "script": [["importance", 0, "n", 1.23456789e-07], ["importance", 0, "n", 0.0]],
      "text": "shared cell-block entry\n36 22 3.0 -21 : 67 imp:n,p=0.\n\n21 pz 50.\n67 so 5.055\n\nm22 6000.80c 0.337\nmode n p\nnps 1000\n\n"},
+    # 3f161a1: a line break after a cell modifier's value was replaced by a blank (generation 2 differed at 80 columns)
+    {"name": "corpus-modifier-line-break", "limit": 80, "seed": 891262, "nedits": 0, "script": [],
+     "text": "line break after vol\n837 0 (927 :     113 ) 8   113    113 -8   imp:n=2.0000     Imp:P=1 vol=31.0\n     U 20\n"
+             "2 0 -8 imp:n,p=1 u=20\n\n8 so 1\n113 so 2\n927 so 3\n\nmode n p\n\n"},
 ]
 
 
